@@ -6103,10 +6103,12 @@ class Path(Shape, MutableSequence):
         last_segment = self._segments[-1]
         if isinstance(last_segment, QuadraticBezier):
             previous_control = last_segment.control
-            return previous_control.reflected_across(start_pos)
+            if previous_control is not None:
+                return previous_control.reflected_across(start_pos)
         elif isinstance(last_segment, CubicBezier):
             previous_control = last_segment.control2
-            return previous_control.reflected_across(start_pos)
+            if previous_control is not None:
+                return previous_control.reflected_across(start_pos)
         return start_pos
 
     def start(self):
